@@ -36,6 +36,17 @@ CHECKS = {
              "rustc stable+nightly and TLC trusted.",
         technique="TLA+ spec (ErrorSource) + TLC exhaustive layouts, replay as real types (address comparison)",
         design="4 (C09)"),
+    "C12": dict(
+        text="TLC model-checks TryFromRepr.tla (Rust's discriminant rule vs the textual constant reconstruction of "
+             "try_from.rs under Rust's operator precedence; repr detection and merging) on every enum of up to 3 (quick) / "
+             "4 (thorough) variants x 8 discriminant expressions x 19 repr attribute sets; the valid enums (all small ones, a "
+             "seeded share of the larger) are compiled with the real derive and try_from is run over the whole integer "
+             "domain for 8/16-bit reprs (discriminants +-1 and extremes for wider ones) against the specification's "
+             "table, which is itself checked against rustc's `as` cast / in-memory tag; generic enums exercise the header.",
+        note="discriminant expressions limited to literals, unary minus, <<, |, + on small constants; rustc is the ground "
+             "truth for discriminant values; TLC integers are 32-bit so wide reprs are modelled by small values.",
+        technique="TLA+ spec (TryFromRepr) + TLC exhaustive enums, replay as real enums over full integer domains",
+        design="4 (C12)"),
 }
 
 NOT_YET = {}
